@@ -122,32 +122,86 @@ pub enum MotorEv {
     Update,
 }
 
+/// An inner object that talks back to the wrapper's own terminal from inside the calls the wrapper
+/// makes on it (a servo reporting its reached position, a driver reading the bus it sits on). The
+/// wrapper owns the terminal in a RefCell, so this is only possible while the wrapper holds no
+/// conflicting borrow: none at all during the inner `update()`, at most a shared one otherwise.
+#[derive(Clone)]
+pub struct Feedback<'a> {
+    pub term: Rc<Cell<Option<TermRef<'a>>>>,
+    /// 0 off; 1 the inner update() writes `datum` as the terminal's own state; 2 the inner object
+    /// reads the terminal (shared borrow) in update() and in get()/impl_set()
+    pub mode: Rc<Cell<u8>>,
+    pub datum: Rc<Cell<(i64, [u32; 3])>>,
+    pub wrote: Rc<Cell<u64>>,
+    pub read: Rc<Cell<u64>>,
+}
+impl<'a> Feedback<'a> {
+    pub fn new() -> Self {
+        Feedback {
+            term: Rc::new(Cell::new(None)),
+            mode: Rc::new(Cell::new(0)),
+            datum: Rc::new(Cell::new((0, [0; 3]))),
+            wrote: Rc::new(Cell::new(0)),
+            read: Rc::new(Cell::new(0)),
+        }
+    }
+    /// called from the inner object's update()
+    pub fn in_update(&self) {
+        let Some(t) = self.term.get() else { return };
+        match self.mode.get() {
+            1 => {
+                let (time, s) = self.datum.get();
+                let _ = set_state(t, time, s);
+                self.wrote.set(self.wrote.get() + 1);
+            }
+            2 => self.look(),
+            _ => {}
+        }
+    }
+    /// called from the inner object's get() / impl_set()
+    pub fn in_call(&self) {
+        if self.mode.get() == 2 {
+            self.look();
+        }
+    }
+    fn look(&self) {
+        if let Some(t) = self.term.get() {
+            let _ = <Terminal<'_, E> as Getter<TerminalData, E>>::get(&t.borrow());
+            self.read.set(self.read.get() + 1);
+        }
+    }
+}
+
 /// Shared script + log of a harness motor (the inner settable of a wrapper).
 #[derive(Clone)]
-pub struct MotorHandle {
+pub struct MotorHandle<'a> {
     pub log: Rc<RefCell<Vec<MotorEv>>>,
     pub reject: Rc<Cell<Option<u8>>>,
     pub update_err: Rc<Cell<Option<u8>>>,
+    pub fb: Feedback<'a>,
 }
-impl MotorHandle {
+impl<'a> MotorHandle<'a> {
     pub fn new() -> Self {
         MotorHandle {
             log: Rc::new(RefCell::new(Vec::new())),
             reject: Rc::new(Cell::new(None)),
             update_err: Rc::new(Cell::new(None)),
+            fb: Feedback::new(),
         }
     }
 }
 
-pub struct TdMotor {
-    h: MotorHandle,
+pub struct TdMotor<'a> {
+    h: MotorHandle<'a>,
     data: SettableData<TerminalData, E>,
 }
-impl Settable<TerminalData, E> for TdMotor {
+impl Settable<TerminalData, E> for TdMotor<'_> {
     fn impl_set(&mut self, value: TerminalData) -> NothingOrError<E> {
         if let Some(k) = self.h.reject.get() {
             return Err(err_of(k));
         }
+        self.h.fb.in_call();
         self.h.log.borrow_mut().push(MotorEv::SetTd(value.to_val()));
         Ok(())
     }
@@ -158,9 +212,10 @@ impl Settable<TerminalData, E> for TdMotor {
         &mut self.data
     }
 }
-impl Updatable<E> for TdMotor {
+impl Updatable<E> for TdMotor<'_> {
     fn update(&mut self) -> NothingOrError<E> {
         self.h.log.borrow_mut().push(MotorEv::Update);
+        self.h.fb.in_update();
         if let Some(k) = self.h.update_err.get() {
             return Err(err_of(k));
         }
@@ -168,15 +223,16 @@ impl Updatable<E> for TdMotor {
     }
 }
 
-pub struct FMotor {
-    h: MotorHandle,
+pub struct FMotor<'a> {
+    h: MotorHandle<'a>,
     data: SettableData<f32, E>,
 }
-impl Settable<f32, E> for FMotor {
+impl Settable<f32, E> for FMotor<'_> {
     fn impl_set(&mut self, value: f32) -> NothingOrError<E> {
         if let Some(k) = self.h.reject.get() {
             return Err(err_of(k));
         }
+        self.h.fb.in_call();
         self.h.log.borrow_mut().push(MotorEv::SetF(fbits(value)));
         Ok(())
     }
@@ -187,9 +243,10 @@ impl Settable<f32, E> for FMotor {
         &mut self.data
     }
 }
-impl Updatable<E> for FMotor {
+impl Updatable<E> for FMotor<'_> {
     fn update(&mut self) -> NothingOrError<E> {
         self.h.log.borrow_mut().push(MotorEv::Update);
+        self.h.fb.in_update();
         if let Some(k) = self.h.update_err.get() {
             return Err(err_of(k));
         }
@@ -198,7 +255,8 @@ impl Updatable<E> for FMotor {
 }
 
 /// Inner getter of an encoder wrapper: scripted output, scripted update error.
-pub struct EncInner {
+pub struct EncInner<'a> {
+    pub fb: Feedback<'a>,
     /// a reading that becomes current at the next inner update() (a real encoder samples there)
     pub pending: Rc<RefCell<Option<Output<State, E>>>>,
     pub cur: Rc<RefCell<Output<State, E>>>,
@@ -206,15 +264,17 @@ pub struct EncInner {
     pub updates: Rc<Cell<u64>>,
 }
 #[derive(Clone)]
-pub struct EncHandle {
+pub struct EncHandle<'a> {
+    pub fb: Feedback<'a>,
     pub pending: Rc<RefCell<Option<Output<State, E>>>>,
     pub cur: Rc<RefCell<Output<State, E>>>,
     pub update_err: Rc<Cell<Option<u8>>>,
     pub updates: Rc<Cell<u64>>,
 }
-impl EncHandle {
+impl<'a> EncHandle<'a> {
     pub fn new() -> Self {
         EncHandle {
+            fb: Feedback::new(),
             pending: Rc::new(RefCell::new(None)),
             cur: Rc::new(RefCell::new(Ok(None))),
             update_err: Rc::new(Cell::new(None)),
@@ -222,14 +282,16 @@ impl EncHandle {
         }
     }
 }
-impl Getter<State, E> for EncInner {
+impl Getter<State, E> for EncInner<'_> {
     fn get(&self) -> Output<State, E> {
+        self.fb.in_call();
         self.cur.borrow().clone()
     }
 }
-impl Updatable<E> for EncInner {
+impl Updatable<E> for EncInner<'_> {
     fn update(&mut self) -> NothingOrError<E> {
         self.updates.set(self.updates.get() + 1);
+        self.fb.in_update();
         if let Some(p) = self.pending.borrow_mut().take() {
             *self.cur.borrow_mut() = p;
         }
@@ -257,9 +319,9 @@ pub enum Dev<'a> {
     Axle7(Axle<'a, 7, E>),
     Axle8(Axle<'a, 8, E>),
     Diff(Differential<'a, E>),
-    Act(ActuatorWrapper<'a, TdMotor, E>, MotorHandle),
-    Enc(GetterStateDeviceWrapper<'a, EncInner, E>, EncHandle),
-    Pid(PIDWrapper<'a, FMotor, E>, MotorHandle),
+    Act(ActuatorWrapper<'a, TdMotor<'a>, E>, MotorHandle<'a>),
+    Enc(GetterStateDeviceWrapper<'a, EncInner<'a>, E>, EncHandle<'a>),
+    Pid(PIDWrapper<'a, FMotor<'a>, E>, MotorHandle<'a>),
 }
 
 pub type TermRef<'a> = &'a RefCell<Terminal<'a, E>>;
@@ -316,6 +378,7 @@ pub fn build_dev<'a>(spec: &DevSpec, plan: &Plan) -> Dev<'a> {
             let h = EncHandle::new();
             Dev::Enc(
                 GetterStateDeviceWrapper::new(EncInner {
+                    fb: h.fb.clone(),
                     pending: h.pending.clone(),
                     cur: h.cur.clone(),
                     update_err: h.update_err.clone(),
@@ -347,6 +410,13 @@ pub fn build_dev<'a>(spec: &DevSpec, plan: &Plan) -> Dev<'a> {
 }
 
 impl<'a> Dev<'a> {
+    pub fn feedback(&self) -> Option<&Feedback<'a>> {
+        match self {
+            Dev::Act(_, h) | Dev::Pid(_, h) => Some(&h.fb),
+            Dev::Enc(_, h) => Some(&h.fb),
+            _ => None,
+        }
+    }
     /// the device's terminals through the public accessors
     pub fn terminals(&self) -> Vec<TermRef<'a>> {
         match self {
